@@ -1,6 +1,7 @@
 #!/usr/bin/python3
 """Checker self-test: apply each stored mutant to a scratch copy of /repo's current tree, run the analyser on the
-copy and require the expected rule to report a violation.  The scratch copy lives in mktemp (outside /repo and /verif)
+copy and require the expected rule to report a violation (or, for entries with "expect": "silent" — behaviour-preserving
+refactorings — require the check to stay quiet).  The scratch copy lives in mktemp (outside /repo and /verif)
 and is removed immediately.  A mutant whose `old` text is no longer present in the tree is *skipped*, never failed."""
 import json
 import os
@@ -41,6 +42,11 @@ def run_one(m, repo="/repo", verbose=False):
             if "ERROR" in out and "cargo check" in out:
                 return "broken-mutant", out[-1500:]
             return "failclosed", out[-800:]
+        if m.get("expect") == "silent":
+            # behaviour-preserving refactoring: the check must stay quiet (exit 0, no VIOLATION line)
+            if p.returncode == 0 and "VIOLATION" not in out:
+                return "silent-ok", ""
+            return "false-alarm", out[-1200:]
         want = m["expect_rule"]
         hit = [l for l in out.splitlines() if l.strip().startswith("key: ") and l.strip()[5:].startswith(want)]
         if p.returncode == 1 and hit:
@@ -67,7 +73,7 @@ def main():
             continue
         st, info = run_one(m, a.repo, a.v)
         print("%-10s %-28s %s" % (st, m["id"], info if st != "caught" else info[:140]))
-        if st in ("missed", "failclosed", "broken-mutant"):
+        if st in ("missed", "failclosed", "broken-mutant", "false-alarm"):
             bad += 1
     return 1 if bad else 0
 
